@@ -767,8 +767,17 @@ func runKeys(every int) {
 	for _, m := range storeops.Methods {
 		h, pg, c := fresh(m.Name)
 		ss, ps, os_ := args(m)
-		for _, sv := range ss {
-			for _, cp := range ps {
+		for si, sv := range ss {
+			// a new memoizing store for every value of the first argument that varies (the subject, else the predicate):
+			// one store per method made traces of more than a million events, which TLC validates in one piece
+			// (the cross-argument collisions are the matter of part (b) below, on one store)
+			if si > 0 {
+				h, pg, c = fresh(m.Name)
+			}
+			for pi, cp := range ps {
+				if len(ss) == 1 && pi > 0 {
+					h, pg, c = fresh(m.Name)
+				}
 				for _, ov := range os_ {
 					if every > 1 && rng.Intn(every) != 0 {
 						continue
